@@ -33,6 +33,7 @@ pub fn exec(h: &History) -> ExecOut {
         out.shape.push_str(&a.shape());
     }
     for (i, (p, b)) in h.ops.iter().enumerate() {
+        h.reconfigure(i, &mut sut);
         let scope = crate::alloc::begin();
         let r = catch_unwind(AssertUnwindSafe(|| sut.parse(*p, b)));
         let m = crate::alloc::end(scope);
@@ -132,7 +133,7 @@ pub fn run(w: &mut W) {
             continue;
         }
         let _ = w.begin_case(idx, name);
-        let h = History { family: "ext", parsers: vec![super::common::Allowed::Default], ops: bufs.iter().map(|b| (0usize, b.clone())).collect() };
+        let h = History { family: "ext", parsers: vec![super::common::Allowed::Default], ops: bufs.iter().map(|b| (0usize, b.clone())).collect(), reconf: vec![] };
         w.rep.count(&format!("extreme.{}", name), 1);
         run_history(w, h);
     }
@@ -145,7 +146,7 @@ pub fn run(w: &mut W) {
         }
         let _ = w.begin_case(crate::worker::ONEOFF + base + k, "id-space");
         let (name, bufs) = super::idspace::histories(w).swap_remove(k as usize);
-        let h = History { family: "idspace", parsers: vec![super::common::Allowed::Default], ops: bufs.into_iter().map(|b| (0usize, b)).collect() };
+        let h = History { family: "idspace", parsers: vec![super::common::Allowed::Default], ops: bufs.into_iter().map(|b| (0usize, b)).collect(), reconf: vec![] };
         w.rep.count(&format!("idspace.{}", name), 1);
         run_history(w, h);
     }
@@ -171,7 +172,7 @@ pub fn run_small(w: &mut W) {
             super::common::Allowed::All => super::common::Allowed::Set(vec![5, 7, 9, 10, 11]),
             a => a,
         };
-        let hist = History { family: "small", parsers: vec![allowed], ops };
+        let hist = History { family: "small", parsers: vec![allowed], ops, reconf: vec![] };
         let out = exec(&hist);
         w.rep.count("calls", out.calls);
         w.rep.count("bytes", out.bytes);
